@@ -171,6 +171,163 @@ def run_starved_oplists(ctx, exe, ncases):
     return len(cases), nerrcases
 
 
+# ------------------------------------------------------------------ per-step use of the secondary stack
+
+def gen_stack_case(r):
+    n = r.choice([1, 1, 2, 2, 3, 4, 5, 8])
+    sf8 = r.choice([0, 1, 2, 3, 4, 6, 8, 8, 12, 16, 24])       # factor sf8/8: capacity floor(n*sf8/8), 0 included
+    order = r.choice([0, 0, 1])
+    cap = n * sf8 // 8
+    nsteps = r.randint(1, 5)
+    ops = [("P", [(0, r.choice([0, 0, 1]), 1 if r.random() < 0.08 else 0) for _ in range(n)])]
+    tag = 0
+    steps = []
+    for k in range(nsteps):
+        if k and r.random() < 0.5:
+            ops.append(("P", [(0, r.choice([0, 1]), 1 if r.random() < 0.1 else 0) for _ in range(r.randint(1, n))]))
+        ops.append(("I",))
+        reqs = []
+        for i in range(n):
+            tag += 1
+            cnt = r.choice([0, 1, 1, 2, 3, max(cap, 1), cap + 1, max(cap - 1, 1), max(cap // 2, 1)])
+            reqs.append((1 if r.random() < 0.3 else 0, min(cnt, 6), tag))
+        steps.append(reqs)
+        ops.append(("Y", reqs))
+        ops.append(("S",))
+    return {"n": n, "sf8": sf8, "order": order, "ops": ops, "steps": steps}
+
+
+def stack_case_text(c):
+    out = ["CASE %d 600 %d 1 %d %d" % (c["n"], c["order"], c["sf8"], len(c["ops"]))]
+    for op in c["ops"]:
+        if op[0] == "P":
+            out.append("P %d %s" % (len(op[1]), " ".join("%d %d %d" % p for p in op[1])))
+        elif op[0] == "Y":
+            out.append("Y " + " ".join("%d %d %d" % q for q in op[1]))
+        else:
+            out.append(op[0])
+    return "\n".join(out) + "\n"
+
+
+def stack_oracle(c, klines, alines):
+    """C16 on the implementation's output only: capacity rule; per step the stack is used from 0 again,
+    successful spans tile [0, size) in slot order with intact items, a failure happens only when there
+    is no room at that moment and leaves nothing behind"""
+    n, sf8 = c["n"], c["sf8"]
+    if sf8 == 0:
+        return None if klines == [0] else "secondary_stack_factor = 0 was accepted"
+    cap = n * sf8 // 8
+    if klines != [1, cap, 0]:
+        return "fresh secondary stack (ok, capacity, size) = %s, expected capacity floor(%d*%d/8) = %d and size 0" % (klines, n, sf8, cap)
+    if len(alines) != len(c["steps"]):
+        return "missing step dumps"
+    for si, (reqs, a) in enumerate(zip(c["steps"], alines)):
+        size, acap = a[0], a[1]
+        slots = [a[2 + 4 * i:6 + 4 * i] for i in range(n)]
+        store = a[2 + 4 * n:]
+        if acap != cap or len(store) != cap:
+            return "step %d: capacity changed" % si
+        cur = 0
+        for i, ((dies, cnt, tag), (pre, failed, off, scnt)) in enumerate(zip(reqs, slots)):
+            if pre == 0:
+                if failed:
+                    return "step %d slot %d: an inactive slot interacted" % (si, i)
+                continue
+            if pre == 3 or cnt == 0:
+                if failed or (off, scnt) != (0, 0):
+                    return "step %d slot %d: span not empty for a slot that emitted nothing" % (si, i)
+                continue
+            if failed:
+                if cur + cnt <= cap:
+                    return "step %d slot %d: allocation of %d failed although %d + %d <= capacity %d (the stack was not cleared at pre-step?)" % (si, i, cnt, cur, cnt, cap)
+                if (off, scnt) != (0, 0):
+                    return "step %d slot %d: a failed interaction left a secondary span" % (si, i)
+                continue
+            if (off, scnt) != (cur + 1, cnt):
+                return "step %d slot %d: span (%d,%d), expected [%d,%d) (overlap or gap)" % (si, i, off - 1, scnt, cur, cur + cnt)
+            if store[cur:cur + cnt] != [tag] * cnt:
+                return "step %d slot %d: items of the span were overwritten" % (si, i)
+            cur += cnt
+        if size != cur or size > cap:
+            return "step %d: stack size %d, expected %d <= capacity %d" % (si, size, cur, cap)
+    return None
+
+
+def run_step_stack(ctx, exe, ncases):
+    r = ctx.rng
+    cases = [gen_stack_case(r) for _ in range(ncases)]
+    # capacity rule grid (one trivial step each)
+    for n in (1, 2, 3, 5, 7, 8, 9, 16):
+        for sf8 in (0, 1, 3, 5, 7, 8, 9, 64):
+            cases.append({"n": n, "sf8": sf8, "order": 0, "ops": [("P", [(0, 0, 0)] * n), ("I",), ("Y", [(0, 1, i + 1) for i in range(n)]), ("S",)],
+                          "steps": [[(0, 1, i + 1) for i in range(n)]]})
+    txt = "".join(stack_case_text(c) for c in cases)
+    rc, out = ctx.run_harness(exe, input=txt, env=HENV, timeout=900)
+    done = ("DONE %d" % len(cases)) in out
+    why = gen.abnormal(rc, out, done)
+    K = [None] * len(cases)
+    A = [[] for _ in cases]
+    for line in out.splitlines():
+        w = line.split()
+        try:
+            if w and w[0] == "K" and int(w[1]) < len(cases):
+                K[int(w[1])] = [int(x) for x in w[2:]]
+            elif w and w[0] == "A" and int(w[1]) < len(cases):
+                A[int(w[1])].append([int(x) for x in w[3:]])
+        except ValueError:
+            pass
+    # model input: kinds from the statuses the real code had when pre-step ran
+    mtxt = ""
+    for c, a in zip(cases, A):
+        n = c["n"]
+        steps = c["steps"][:len(a)] if c["sf8"] else []
+        mtxt += "STEPS %d %d 8 %d\n" % (n, c["sf8"], len(steps))
+        for reqs, al in zip(steps, a):
+            pre = [al[2 + 4 * i] for i in range(n)] if len(al) >= 2 + 4 * n else [0] * n
+            kinds = [0 if p_ == 0 else (2 if p_ == 3 else 1) for p_ in pre]
+            mtxt += "T " + " ".join("%d %d %d" % (kd, q[1], q[2]) for kd, q in zip(kinds, reqs)) + "\n"
+    mexe = ctx.ocaml_extract("C16/Extract.v", os.path.join(HERE, "harness", "driver.ml"), "c16model_exe", "c16model")
+    mrc, mout = vlib.sh([mexe], input=mtxt, timeout=600)
+    model, mdone = gen.parse_harness(mout, len(cases))
+    if mrc != 0 or not mdone:
+        raise RuntimeError("extracted step-stack model failed: " + mout[-1000:])
+    nbad = nfail = 0
+    for i, (c, k, a, mo) in enumerate(zip(cases, K, A, model)):
+        n = c["n"]
+        ctx.case(("stepstack", stack_case_text(c)), nontrivial=len(c["steps"]) >= 2)
+        ctx.count("step-stack-capacity:%d" % min(n * c["sf8"] // 8, 9))
+        ctx.evaluations += max(0, len(a) - 1)
+        nfail += sum(al[3 + 4 * j] for al in a for j in range(n) if len(al) >= 2 + 4 * n)
+        try:
+            orc = stack_oracle(c, k, a) if k is not None else "no dump of the fresh secondary stack"
+        except Exception as e:
+            orc = "uninterpretable output of the real code: %r" % e
+        if c["sf8"] == 0:
+            diff = None if (k == [0] and mo == [[0]]) else 0
+        else:
+            im = [[al[0], al[1]] + [x for j in range(n) for x in al[3 + 4 * j:6 + 4 * j]] + al[2 + 4 * n:] for al in a]
+            diff = c02run.first_diff(im, mo)
+            if diff is None and mo and k is not None and (len(k) != 3 or k[1] != mo[0][1]):
+                diff = 0
+        if orc is None and diff is None:
+            continue
+        nbad += 1
+        if nbad > 3:
+            continue
+        replay = {"slots": n, "stack_factor_x8": c["sf8"], "track_order": c["order"], "harness_input": stack_case_text(c),
+                  "fresh_stack(ok capacity size)": k, "impl_steps": a, "model_steps": mo, "first_differing_step": diff,
+                  "layout": "impl: size capacity (prestatus failed offset+1 count)*slots storage-tags; model: the same without prestatus"}
+        if why and (k is None or len(a) != len(c["steps"])):
+            replay["why"], replay["output_tail"] = why, out[-600:]
+            ctx.violation("crash", "the real code crashed / aborted in a starved step [%s]" % why, replay)
+        elif orc is not None:
+            replay["property_violation"] = orc
+            ctx.violation("property", "per-step use of the secondary stack violates C16 on the real code: " + orc, replay)
+        else:
+            ctx.violation("correspondence", "step-stack model (coq/C16/StepStack.v) and implementation differ", replay, no_input=True)
+    return len(cases), nfail
+
+
 # ------------------------------------------------------------------ starved Stepper runs
 
 def gen_stepper_run(r):
@@ -194,6 +351,23 @@ def stepper_text(run):
     for uid, maxsteps, ps in run["events"]:
         t += "EV %d %d %d %s\n" % (uid, maxsteps, len(ps), " ".join("%d %r" % p for p in ps))
     return t
+
+
+def stepper_protocol_ok(optexts):
+    """Python transcription of `stepper_protocol false` (coq/C02/Refine.v), the hypothesis of
+    C16_reset_refines_fresh, evaluated on the op sequence the REAL Stepper produced"""
+    clean = False
+    for t in optexts:
+        k = t.split()[0] if t.split() else "?"
+        if k in ("P", "E"):
+            clean = True
+        elif k == "R":
+            clean = False
+        elif k == "Z":
+            pass
+        elif not clean:
+            return False
+    return True
 
 
 def run_stepper(ctx, nruns):
@@ -283,6 +457,14 @@ def run_stepper(ctx, nruns):
         if len(ctx.samples) < 5 and glines[i]:
             ctx.sample({"stepper_run": stepper_text(run).splitlines(), "failed_interactions": len(glines[i]),
                         "first_failed(op slot status nsec E_pre E_post deposit step_length moved)": glines[i][0]})
+        if not stepper_protocol_ok(optext[i]):
+            nbad += 1
+            if nbad <= 2:
+                ctx.violation("correspondence", "the op sequence of the real Stepper does not follow `stepper_protocol` "
+                              "(hypothesis of C16_reset_refines_fresh: initialize-tracks .. extend-from-secondaries only after the "
+                              "primaries action has run since the last reset)",
+                              {"run": run, "harness_input": stepper_text(run), "ops": [t.split()[0] for t in optext[i]][:40]}, no_input=True)
+            continue
         if i in odd and nbad < 2:
             nbad += 1
             ctx.violation("property", "an exception escaped from an unexpected action during a starved Stepper run",
@@ -352,6 +534,10 @@ def _run(ctx):
     nl, nlerr = run_starved_oplists(ctx, exe, int((500 if quick else 8000) * scale))
     ctx.log("starved op lists: %d (%d with capacity errors) in %.1fs" % (nl, nlerr, time.time() - t))
     t = time.time()
+    nk, nkfail = run_step_stack(ctx, exe, int((250 if quick else 4000) * scale))
+    ctx.log("step-stack differential: %d cases, %d failed allocations in %.1fs" % (nk, nkfail, time.time() - t))
+    ctx.coverage["step_stack_failed_allocations"] = nkfail
+    t = time.time()
     ns, nserr, nfail = run_stepper(ctx, int((110 if quick else 2500) * scale))
     ctx.log("starved Stepper runs: %d, %d RuntimeErrors, %d failed interactions in %.1fs" % (ns, nserr, nfail, time.time() - t))
     ctx.coverage["stepper_runtime_errors"] = nserr
@@ -361,4 +547,4 @@ def _run(ctx):
     ctx.coverage["rule"] = ("allocator cases = (capacity 0..8, op list) random + exhaustive up to capacity 3 x 3 ops; op lists = C02 generator with tiny/tight "
                             "initializer capacity; Stepper runs = (slots, initializer capacity, order, stack factor, events); every dump compared exactly with the model; "
                             "non-trivial = allocator list >= 2 ops / op list with a capacity error / run with > 6 dumps")
-    ctx.coverage["traces_validated_against_impl"] = na + nl + ns
+    ctx.coverage["traces_validated_against_impl"] = na + nl + ns + nk
